@@ -127,6 +127,13 @@ def c10_nontrivial(op, impl):
 
 def run_c10(ctx):
     run_stream(ctx, "cross", ["c10"], policy="okerr", oracle=c10_oracle, nontrivial=c10_nontrivial)
+    # key bytes of every length offered to every kind of every back end: only the kind's own length(s) may pass
+    def keylen_oracle(o, i):
+        r = c08_oracle(o, i)
+        if r and ("length" in r[1] or "scalar" in r[1] or "modulus" in r[1]):
+            return r
+        return None
+    run_stream(ctx, "keylen", ["c08"], policy="okerr", oracle=keylen_oracle, nontrivial=c08_nontrivial)
     ctx.cov["exhaustive"] = True
     ctx.cov["rule"] = ("exhaustive cross product: every (back end, form, kind) serialised value (6 x 17 sources, several lengths) offered to every "
                        "(back end, form, kind) parser (6 x 17); distinct = ordered (source, parser) pair")
@@ -339,8 +346,36 @@ def c14_nontrivial(op, impl):
     return ("dec", t[1], sig, impl[:3])
 
 
+def make_c14_oracle():
+    """c14_oracle plus order independence: the generator emits a permutation of a member list right after the original;
+    without duplicated registered members both must decode to the same result"""
+    prev = {}
+    REG = {b"iss", b"sub", b"aud", b"exp", b"nbf", b"iat", b"jti"}
+
+    def f(op, impl):
+        r = c14_oracle(op, impl)
+        t = op.split(" ")
+        if t[0] == "claims.dec" and t[2].startswith("O:"):
+            ms = t[2][2:].split(";") if len(t[2]) > 2 else []
+            keys = [unhex(m.split("=")[0]) for m in ms]
+            regs = [k for k in keys if k in REG]
+            sig = (t[1], tuple(sorted(ms)))
+            if len(regs) == len(set(regs)) and prev.get("sig") == sig and prev.get("ops") != ms:
+                a = prev["impl"].split(" gen=")[0]
+                b = impl.split(" gen=")[0]
+                if a.startswith("err"):
+                    a = "err"
+                if b.startswith("err"):
+                    b = "err"
+                if a != b and r is None:
+                    r = ("decoding depends on member order: the same members in another order give %s vs %s" % (a[:40], b[:40]), "json/claims/order")
+            prev.update({"sig": sig, "impl": impl, "ops": ms})
+        return r
+    return f
+
+
 def run_c14(ctx):
-    run_stream(ctx, "claims", ["c14"], policy="okerr", oracle=c14_oracle, nontrivial=c14_nontrivial)
+    run_stream(ctx, "claims", ["c14"], policy="okerr", oracle=make_c14_oracle(), nontrivial=c14_nontrivial)
     st = ctx.cov["streams"].get("claims", {})
     ctx.cov["rule"] = ("claims.enc: all 128 absent/present combinations, strings with escapes/NUL/astral characters, timestamps over jiff's full range at ns resolution; "
                        "claims.dec: JSON text built from generated member lists (registered/unknown/near-miss keys, every JSON value type, nulls, duplicates, permutations, three escape styles), "
@@ -374,6 +409,9 @@ def open_oracle(prop):
             elif want and want.startswith("ok:"):
                 if not impl.startswith("ok ") or impl.split(" ")[1] != want[3:]:
                     return ("a valid (spec-conforming) token was not accepted with the same claims", "%s/%s/valid-rejected" % (be, purpose))
+        elif t[0] == "o.rtc":
+            if not impl.startswith("ok rt=1"):
+                return ("round trip of a payload type with a non-empty encoding suffix failed: " + impl[:80], "%s/%s/suffix-roundtrip" % (be, t[2]))
         elif t[0] == "o.rt":
             if not impl.startswith("ok rt=1"):
                 return ("seal -> to_string -> parse -> unseal with the library's own randomness did not return the input: " + impl[:80],
@@ -414,6 +452,8 @@ def run_c01(ctx):
 
 def run_c02(ctx):
     run_stream(ctx, "mutations", ["c02"], policy="okerr", oracle=open_oracle("C02"), nontrivial=tok_nontrivial)
+    # the acceptance characterisation rests on the injectivity of the authenticated encoding: the PAE tie is part of this check
+    run_stream(ctx, "pae", ["c15"], policy="okerr", oracle=c15_oracle, nontrivial=c15_nontrivial)
     ctx.cov["rule"] = ("per back end and purpose: sealed tokens x {every bit of nonce/tag/signature and boundary bytes (stride elsewhere; thorough: every bit), every truncation, 1..3-byte extensions, footer/assertion change-add-remove-swap, "
                        "message/footer/assertion boundary shifts, single-bit key neighbours, header relabel to every other version and purpose}; all must be rejected by the implementation and the model; distinct = (op, back end, outcome, size class, aad?)")
 
@@ -459,6 +499,19 @@ def paserk_oracle(op, impl):
         want_len = base + int(f["keylen"]) if fam in ("pie", "pw") else base
         if int(f["len"]) != want_len:
             return ("serialised form has %s bytes, the format prescribes %d" % (f["len"], want_len), "%s/%s/length" % (be, fam))
+    elif name == "o.pw.cross":
+        if impl.startswith("ok wrapped") and "cross=1" not in impl:
+            fails = impl.split(" ")[3]
+            key = "%s/pw/cross-unwrap" % be
+            try:
+                import base64
+                body = unhex(t[4]).decode().split(".")[-1]
+                blob = base64.urlsafe_b64decode(body + "=" * (-len(body) % 4))
+                if ver_of(be) in (2, 4) and int.from_bytes(blob[28:32], "big") != 1 and fails == "v4s:invalidKey":
+                    key = "v4s/pw/parallelism-not-1"
+            except Exception:
+                pass
+            return ("%s emitted a password-wrapped key that a back end of the same version cannot unwrap: %s" % (be, impl[11:80]), key)
     elif name in ("pie.re", "pw.re"):
         pass  # bit-exactness is decided by the model side (compared by K)
     elif name == "o.sibling":
@@ -523,6 +576,11 @@ def c08_oracle(op, impl):
                     return ("off-curve bytes accepted as public key", "%s/key/off-curve" % be)
             elif kind in ("secret", "pkesecret") and len(raw) != 64:
                 return ("wrong-length secret key accepted", "%s/key/length" % be)
+        if v == 1 and kind in ("public", "pkepublic") and raw[:1] == b"\x30":
+            bits = rsa_spki_bits(raw)
+            want = 2048 if kind == "public" else 4096
+            if bits is not None and bits != want:
+                return ("RSA modulus of %d bits accepted as a %s key (must be %d)" % (bits, kind, want), "%s/key/modulus-size" % be)
         if v == 3:
             if kind in ("secret", "pkesecret"):
                 d = int.from_bytes(raw, "big")
@@ -531,6 +589,27 @@ def c08_oracle(op, impl):
             elif raw == b"\x00":
                 return ("point at infinity accepted", "%s/key/infinity" % be)
     return None
+
+
+def der_tlv(b, i):
+    tag = b[i]; l = b[i + 1]; i += 2
+    if l & 0x80:
+        k = l & 0x7f
+        l = int.from_bytes(b[i:i + k], "big"); i += k
+    return tag, b[i:i + l], i + l
+
+
+def rsa_spki_bits(raw):
+    """modulus bit length of an RSA SubjectPublicKeyInfo (DER), or None"""
+    try:
+        t, seq, _ = der_tlv(raw, 0)
+        t, alg, j = der_tlv(seq, 0)
+        t, bits, _ = der_tlv(seq, j)
+        t, key, _ = der_tlv(bits[1:], 0)
+        t, n, _ = der_tlv(key, 0)
+        return int.from_bytes(n, "big").bit_length() if t == 2 else None
+    except Exception:
+        return None
 
 
 P384_N = 0xffffffffffffffffffffffffffffffffffffffffffffffffc7634d81f4372ddf581a0db248b0a77aecec196accc52973
